@@ -55,6 +55,14 @@ func genUID(r *gen.R) int32 {
 	return int32(r.Range(1, 1<<24))
 }
 
+// pbfOnly are string fragments only the PBF format can carry as they are (its strings are
+// byte strings): control characters, right-to-left and combining sequences, byte order marks,
+// bytes that are not valid UTF-8. A reader hands them on untouched.
+var pbfOnly = []string{
+	"\x00", "\x01\x1f", "\x7f", "\t\r\n", "\u200f\u05e9\u05dc\u05d5\u05dd", "\u0645\u0631\u062d\u0628\u0627", "e\u0301a\u0308\u0323",
+	"\ufeff", "\u202e", "\xff\xfe", "\xc3", "\x80\xbf", "\xed\xa0\x80", "\xf8\x88\x80\x80\x80",
+}
+
 func genStr(r *gen.R, o GenOpts) string {
 	if o.SmallStrings {
 		return r.Word()
@@ -62,7 +70,16 @@ func genStr(r *gen.R, o GenOpts) string {
 	if r.Chance(0.5) {
 		return r.Word()
 	}
-	return r.Str(12)
+	s := r.Str(12)
+	if !o.Plain && r.Chance(0.08) {
+		f := pbfOnly[r.Intn(len(pbfOnly))]
+		i := r.Intn(len(s) + 1)
+		for i > 0 && i < len(s) && s[i]&0xC0 == 0x80 {
+			i-- // insert at a rune boundary of the valid part
+		}
+		s = s[:i] + f + s[i:]
+	}
+	return s
 }
 
 func genTags(r *gen.R, o GenOpts, allowEmpty bool) []Tag {
